@@ -85,19 +85,6 @@ Print Assumptions C08_complete.
 (* non-vacuity:  local t={1,x=2} / if (t.x) f(t) else y=-t[1]+2 / for i=1,3 do t.x+=i end / return t
    (four lines, with spaces); its derivation (the model's tree with the operator nest flattened) satisfies every
    hypothesis of C08_complete and contains a one-line if with an else part *)
-Definition c08_example_ts : list token :=
-  let sp := mkTok CSpace 0 " "%bs " "%bs in
-  let nl := mkTok CNewline 0 [10] [10] in
-  let nm c := mkTok CName 0 c c in
-  let sy c := mkTok CSymbol 0 c c in
-  let kw c := mkTok CKeyword 0 c c in
-  let nu c := mkTok CNumber 0 c c in
-  [kw "local"%bs; sp; nm "t"%bs; sy "="%bs; sy "{"%bs; nu "1"%bs; sy ","%bs; nm "x"%bs; sy "="%bs; nu "2"%bs; sy "}"%bs; nl;
-   kw "if"%bs; sp; sy "("%bs; nm "t"%bs; sy "."%bs; nm "x"%bs; sy ")"%bs; sp; nm "f"%bs; sy "("%bs; nm "t"%bs; sy ")"%bs; sp;
-   kw "else"%bs; sp; nm "y"%bs; sy "="%bs; sy "-"%bs; nm "t"%bs; sy "["%bs; nu "1"%bs; sy "]"%bs; sy "+"%bs; nu "2"%bs; nl;
-   kw "for"%bs; sp; nm "i"%bs; sy "="%bs; nu "1"%bs; sy ","%bs; nu "3"%bs; sp; kw "do"%bs; sp; nm "t"%bs; sy "."%bs; nm "x"%bs;
-   sy "+="%bs; nm "i"%bs; sp; kw "end"%bs; nl; kw "return"%bs; sp; nm "t"%bs; nl].
-
 Example C08_complete_nonvacuous :
   let ts := c08_example_ts in
   let g := match lua_parse ts with Ok (root, _) => to_deriv 50 root | Err _ => PNone end in
